@@ -107,6 +107,8 @@ type Machine struct {
 	cand      *Candidate
 	decided   map[int]bool
 	evalMemo  map[int]sym.Val
+	walk      int
+	cyclicSeen bool
 	doms      map[string]*dom
 	tsMemo    map[int]sym.Val
 	entangled map[string]bool
@@ -156,6 +158,7 @@ func (m *Machine) resetPath(prefix []int32) {
 	m.initDone = false
 	m.decided = map[int]bool{}
 	m.evalMemo = map[int]sym.Val{}
+	m.walk = 0
 	m.doms = map[string]*dom{}
 	m.tsMemo = map[int]sym.Val{}
 	m.entangled = map[string]bool{}
